@@ -71,6 +71,9 @@ def r3_evaluator_survives(ctx, chk, fx):
     sub = _Ctx()
     sub.chk, sub.facts = _OnlyRule(_Rename(chk, "C17/R1", "C15/R3"), "C15/R3"), fx
     c17.run(sub)
+    # .. and nothing else one evaluation leaves in the evaluator may make a later one fail: no field of the evaluator other than the
+    # connection slot is written during an evaluation (C17/R3's decision: counters, budgets, caches that a failed run does not reset)
+    c17.r3_stateless(_Rename(chk, "C17/R3", "C15/R3:state"), fx)
 
 
 class _OnlyRule:
